@@ -102,6 +102,15 @@ def family_sort(m, tier, add_bench, open_mod, close_mod):
     add_bench(m, g2, 8, "only")
     close_mod(m, 4)
     add_bench(m, path, 4, "A1")
+    # ignored benchmarks are ordered like any other once they are run anyway (--ignored / --include-ignored)
+    add_bench(m, path, 4, "ign_args_int", args="arr_i32_big", options=[("ignore", None)])
+    add_bench(m, path, 4, "ign_args_str", args="string_arr", ignore_attr=True)
+    add_bench(m, path, 4, "ign_gen_consts", consts=[10, 9, 100, 1], options=[("ignore", None)])
+    gi = open_mod(m, path, 4, "ign_grp", group={"options": [("ignore", None)]})
+    add_bench(m, gi, 8, "zz_inherits_args", args="arr_neg")
+    add_bench(m, gi, 8, "b_inherits")
+    add_bench(m, gi, 8, "a_own_false", options=[("ignore", "false")], args="f64s")
+    close_mod(m, 4)
     close_mod(m, 0)
 
 
